@@ -13,7 +13,10 @@ import (
 	"verifharness/gen"
 )
 
-var c12Names = []string{"a", "b", "c", "a/b", "a/b/c", "a/c", "ab", "b/a", "a/bc", "c/d", "c/d/e", "a/b/c/d", "b/a/x"}
+// The pool is closed under "parent of": every nested name has its ancestors in it, and most
+// directories have two or more children (siblings that sort next to a deeper name).
+var c12Names = []string{"a", "b", "c", "a/b", "a/b/c", "a/c", "ab", "b/a", "a/bc", "c/d", "c/d/e", "a/b/c/d", "b/a/x",
+	"a/a", "a/c/d", "c/a", "c/d/a", "b/a/a", "b/a/x/y"}
 var c12Invalid = []string{"a//b", "a/./b", "a/../b", "/a", "a/", ".", "..", "a/.", "../a", "b/.."}
 
 type c12Op struct {
@@ -28,11 +31,25 @@ type c12Case struct {
 	Ops  []c12Op `json:"ops"`
 }
 
-func drawC12Tx(t *rapid.T, hs int) HTx {
+// drawC12Name: from the fixed pool, or (grown) 1..4 components over a tiny alphabet, so that
+// every parent/child/sibling constellation up to depth 4 can occur.
+func drawC12Name(t *rapid.T, grown bool) string {
+	if !grown {
+		return rapid.SampledFrom(c12Names).Draw(t, "name")
+	}
+	d := rapid.IntRange(1, 4).Draw(t, "depth")
+	var comps []string
+	for i := 0; i < d; i++ {
+		comps = append(comps, rapid.SampledFrom([]string{"a", "b", "c", "ab"}).Draw(t, "comp"))
+	}
+	return strings.Join(comps, "/")
+}
+
+func drawC12Tx(t *rapid.T, hs int, grown bool) HTx {
 	tx := HTx{}
 	n := rapid.IntRange(1, 4).Draw(t, "nrec")
 	for i := 0; i < n; i++ {
-		name := rapid.SampledFrom(c12Names).Draw(t, "name")
+		name := drawC12Name(t, grown)
 		if rapid.IntRange(0, 11).Draw(t, "invalid") == 0 {
 			name = rapid.SampledFrom(c12Invalid).Draw(t, "badname")
 		}
@@ -48,7 +65,7 @@ func drawC12Tx(t *rapid.T, hs int) HTx {
 			r.Val, r.Peeled = PoolHash(t, hs), PoolHash(t, hs)
 		case 5:
 			r.Kind = gen.KSym
-			r.Target = Str(rapid.SampledFrom(c12Names).Draw(t, "target"))
+			r.Target = Str(drawC12Name(t, grown))
 		}
 		tx.Refs = append(tx.Refs, r)
 	}
@@ -61,17 +78,18 @@ func genC12(t *rapid.T) c12Case {
 	c.Cfg.SkipNameCheck = rapid.IntRange(0, 4).Draw(t, "skipname") == 0
 	c.Auto = rapid.Bool().Draw(t, "auto")
 	n := rapid.IntRange(3, 25).Draw(t, "nops")
+	grown := rapid.Bool().Draw(t, "grownNames")
 	for i := 0; i < n; i++ {
 		op := c12Op{}
 		if rapid.IntRange(0, 3).Draw(t, "multi") == 0 {
 			op.Multi = true
 			m := rapid.IntRange(2, 3).Draw(t, "ntx")
 			for j := 0; j < m; j++ {
-				op.Txs = append(op.Txs, drawC12Tx(t, c.Cfg.HashSize()))
+				op.Txs = append(op.Txs, drawC12Tx(t, c.Cfg.HashSize(), grown))
 			}
 			op.Abandon = rapid.IntRange(0, 5).Draw(t, "abandon") == 0
 		} else {
-			op.Txs = []HTx{drawC12Tx(t, c.Cfg.HashSize())}
+			op.Txs = []HTx{drawC12Tx(t, c.Cfg.HashSize(), grown)}
 		}
 		c.Ops = append(c.Ops, op)
 	}
